@@ -43,7 +43,7 @@ closing tag) at nesting depth 0, 1 and 2 of an established stream, the verdict o
 real reader (regenerated on every run through real sessions) is `verdict` of the model — in
 particular an XML declaration is *not* skipped once the stream is established -/
 theorem C08_gen_verdicts :
-    ∃ t, Generated.C08.readerVerdicts = some t ∧ t.length = 37 ∧
+    ∃ t, Generated.C08.readerVerdicts = some t ∧ t.length = 43 ∧
       ∀ e ∈ t, factVerdict e.1 e.2.1 = some e.2.2 := by
   refine ⟨_, rfl, by decide, by decide⟩
 
